@@ -3,7 +3,7 @@
 (* node ids and a set of lines, each line identified by its end points         *)
 (* (ordered for directed graphs) and a line id; several lines may join the     *)
 (* same pair and self loops are allowed.  Same three roles as GraphSet.        *)
-EXTENDS Integers, FiniteSets, Sequences, TLC, Json
+EXTENDS Integers, FiniteSets, Sequences, TLC, Json, GraphViews
 
 CONSTANTS IDs, LIDs, Directed, Weights, Emit
 
@@ -109,8 +109,37 @@ RemoveNodeExact == [][\A n \in IDs : (n \in nodes /\ n \notin nodes') =>
                         /\ nodes' = nodes \ {n}
                         /\ DOMAIN lines' = {k \in Keys : k[1] # n /\ k[2] # n}]_vars
 
+(********** the wrapper views of package graph (GraphViews.tla) on a multigraph **********)
+\* graph.Undirect of the directed multigraphs (through their graph.Directed methods) and
+\* graph.Complement of every multigraph: the base graph has an arc for every ordered pair joined by
+\* at least one line - self loops included, which the complement "will not include".
+Arcs == TLCEval({a \in nodes \X nodes : HasFromTo(a[1], a[2])})
+ViewBase == LET A == Arcs IN
+            /\ \A u, v \in U : UHasV(A, u, v) = HasBetween(u, v)
+            /\ \A u \in U : FromA(nodes, A, u) = From(u)
+            /\ ~Directed => SymA(A) = A
+ViewUndirect   == Directed => LET A == Arcs IN UndirectLaws(nodes, A, U)
+ViewComplement == LET A == Arcs IN ComplementLaws(nodes, A, U)
+\* tuples as in GraphSet.tla: uev / cev <<x, y, f, t, rf, rt>>
+IDPairs == IDs \X IDs
+ViewAnswersOf(A) ==
+  [k |-> "v", nodes |-> nodes, lines |-> LineList, directed |-> Directed,
+   cfrom |-> [u \in IDs |-> CFromV(nodes, A, u)],
+   cheb  |-> {p \in IDPairs : CBetweenV(nodes, A, p[1], p[2])},
+   cev   |-> {<<p[1], p[2], CEdgeV(p[1], p[2]).f, CEdgeV(p[1], p[2]).t,
+                RevV(CEdgeV(p[1], p[2])).f, RevV(CEdgeV(p[1], p[2])).t>>
+              : p \in {q \in IDPairs : CHasV(nodes, A, q[1], q[2])}}]
+  @@ (IF Directed
+      THEN [ufrom |-> [u \in IDs |-> UFromV(nodes, A, u)],
+            uheb  |-> {p \in IDPairs : UHasV(A, p[1], p[2])},
+            uev   |-> {<<p[1], p[2], UEdgeV(A, p[1], p[2]).f, UEdgeV(A, p[1], p[2]).t,
+                         RevV(UEdgeV(A, p[1], p[2])).f, RevV(UEdgeV(A, p[1], p[2])).t>>
+                       : p \in {q \in IDPairs : UHasV(A, q[1], q[2])}}]
+      ELSE <<>>)
+
 EmitState ==
-  Emit => PrintT(ToJson([k |-> "s", nodes |-> nodes, lines |-> LineList,
+  Emit => PrintT(ToJson(ViewAnswersOf(Arcs))) /\
+          PrintT(ToJson([k |-> "s", nodes |-> nodes, lines |-> LineList,
       from |-> [u \in IDs |-> From(u)], to |-> [u \in IDs |-> To(u)],
       heft |-> {<<u, v>> \in IDs \X IDs : HasFromTo(u, v)},
       heb  |-> {<<u, v>> \in IDs \X IDs : HasBetween(u, v)},
